@@ -13,7 +13,7 @@ from exact import PS, Cx
 from c07 import dy, mxlit, serlit, obj_mats, ps_residual, scale_of
 
 PID = 'C08'
-IMPORTS = 'QcField Sums Series Matrix QRTall Eigh'
+IMPORTS = 'QcField Sums Series Matrix QRTall Eigh QRFull'
 DEFS = """
 Definition mxs_close (tol : Qc) (n m : nat) (a b : seq (mx K)) : bool :=
   (size a == size b) && all (fun ab => Qc_allclose tol (flatten (mkmx n m (mxget ab.1))) (flatten (mkmx n m (mxget ab.2)))) (zip a b).
@@ -237,6 +237,15 @@ def main(tier, seed):
             sc = scale_of(Ad) ** 2
             if Qd.shape != (D, P, M_, M_) or Rd.shape != (D, P, M_, n) or float(r1) > tol * sc or float(r2) > tol * sc or r3 > tol * sc:
                 viol('qr_full', 'qr_full (%dx%d, D=%d): residuals QR-A %.2g, Q^TQ-I %.2g, below-diagonal R %.2g' % (M_, n, D, float(r1), float(r2), r3), meta)
+            elif M_ <= 4 and D <= 4:
+                # the proved full-QR model (C08_qrfM_spec / C08_qrfU_refines) from the base factors the implementation uses
+                for p in range(P):
+                    q0, r0 = Qd[0, p], Rd[0, p]
+                    rinv = numpy.linalg.inv(r0[:n, :])
+                    QR = '(qrfU %d %d %s %s %s %s)' % (M_, n, serlit(Ad, p), mxlit(q0), mxlit(r0), mxlit(rinv))
+                    terms.append('(mxs_close %s %d %d [seq qr.1 | qr <- %s] %s && mxs_close %s %d %d [seq qr.2 | qr <- %s] %s)'
+                                 % (qlit(F(tol * sc)), M_, M_, QR, serlit(Qd, p), qlit(F(tol * sc)), M_, n, QR, serlit(Rd, p)))
+                    metas.append(dict(model='qrfU', n=n, D=D, direction=p))
         except Exception as e:
             viol('qr_full:exception:%s' % type(e).__name__, 'qr_full (%dx%d) raises %r' % (M_, n, e), meta, exc=repr(e))
         # ================================================================= Cholesky
